@@ -12,6 +12,20 @@ import (
 )
 
 type ResolvedCallback = func(nl shared.DBNodeMap) error
+
+// Flusher is anything that buffers output and reports write errors when flushed
+type Flusher interface {
+	Flush() error
+}
+
+// FlushOnExit flushes f and hands its error back through err unless an earlier error is already being returned.
+// Meant to be deferred: defer utils.FlushOnExit(r, &err)
+func FlushOnExit(f Flusher, err *error) {
+	if ferr := f.Flush(); ferr != nil && *err == nil {
+		*err = ferr
+	}
+}
+
 type ReporterCallback func(rpc reporter.Config, nl shared.DBNodeMap) reporter.Reporter
 
 func WithResolvedDatabase(dbStream io.Reader, pc parser.Config, rc resolver.Config, cb ResolvedCallback) error {
@@ -28,9 +42,9 @@ func WithResolvedDatabase(dbStream io.Reader, pc parser.Config, rc resolver.Conf
 
 func WalkWithReporter(logStream, dbStream io.Reader, dateFormat string, pc parser.Config, rc resolver.Config, rpc reporter.Config, fc filter.Config, rpCb ReporterCallback) error {
 	return WithResolvedDatabase(dbStream, pc, rc,
-		func(nl shared.DBNodeMap) error {
+		func(nl shared.DBNodeMap) (err error) {
 			r := rpCb(rpc, nl)
-			defer r.Flush()
+			defer FlushOnExit(r, &err)
 			f := filter.GetIntervalNodeFilter(fc)
 			return WalkNodesInStream(logStream, dateFormat, pc, f, r)
 		})
